@@ -159,7 +159,11 @@ func New(data Map, query string, options ...QueryOption) (*Query, error) {
 		}
 	default:
 		{
-			q.data = data
+			// CTEs are registered in the top level scope: it must not be the caller's map
+			q.data = make(Map, len(data))
+			for key, value := range data {
+				q.data[key] = value
+			}
 		}
 	}
 	if q.options.postgresEscapingDialect {
